@@ -179,7 +179,7 @@ func (f *frame) invoke(st *State, x *ssa.Call, recv Value, m *types.Func, args [
 	if it.Hooks.Extern != nil {
 		it.Hooks.Extern(st, x, name, append([]Value{recv}, args...))
 	}
-	return it.topOf(x.Type(), Union(DepsOf(recv), depsOfAll(args))), st
+	return it.topOf(x.Type(), Union3(DepsOf(recv), depsOfAll(args), Deps{it.HostSym(name)})), st
 }
 
 // callResolved calls a known function (interpreted, intercepted or extern).
@@ -246,7 +246,7 @@ func (it *Interp) extern(st *State, at ssa.Instruction, fn *ssa.Function, args [
 	if it.Hooks.Extern != nil {
 		it.Hooks.Extern(st, at, name, args)
 	}
-	d := depsOfAll(args)
+	d := Union(depsOfAll(args), Deps{it.HostSym(name)})
 	if !pureExtern[name] {
 		// unknown host code may write through the pointers it is given
 		for _, a := range args {
